@@ -9,7 +9,7 @@ ID = "C05"
 LEVEL = "exploration"
 RULE = ("case = FileSpec with ~V first, a permutation of {~W, ~C, optional ~P, optional ~O, 0..3 custom sections} "
         "and ~A inserted anywhere after ~V; title spellings {letter, word, word + trailing text} x {upper, lower, "
-        "mixed case}; section sizes 0..4 including an empty ~A and an empty ~C; every item line carries a unique "
+        "mixed case} (1 in 8 indented by blanks or a tab); section sizes 0..4 including an empty ~A and an empty ~C; every item line carries a unique "
         "tag; ~C/~P/custom sections may contain items named VERS (other version), WRAP (YES), DLM (COMMA), NULL "
         "(a value present in the data). Oracle: expected reading of the spec: every section holds exactly its own "
         "items in order under its documented key, custom sections under their title, ~W parsed by the ~V version "
